@@ -24,7 +24,7 @@ func init() {
 func c19System(c *lab.Ctx) {
 	c.Rule("system level, generated: MOSNConfig documents from the reflection-driven generator in its system profile (one server; unique listener/router/cluster names; TLS contexts disabled; no resolver, health checker, tracer, shm, pprof, wasm or Go plugin; every other field random), every 5th as YAML; per document two child processes run the real init path: load → dump (InheritMosnconfig) and persist (DumpConfig) → reload → dump; oracles as in the samples job; distinct = set of schema fields present")
 	rng := c.Rand("system")
-	total := c.Pick(320, 4800)
+	total := c.Pick(320, 16000)
 	n := total / c.NBatch
 	if n < 1 {
 		n = 1
@@ -35,6 +35,7 @@ func c19System(c *lab.Ctx) {
 	replay := c.ReplayCase()
 	outAbs, _ := filepath.Abs(c.Out)
 	judged := 0
+	kept := 0
 	for i := 0; i < n; i++ {
 		seed := rng.Uint64()
 		if replay >= 0 && replay != i {
@@ -98,8 +99,10 @@ func c19System(c *lab.Ctx) {
 		if judged == 1 && k != nil {
 			c.Sample(map[string]interface{}{"case": i, "leaf_values_checked": k.leaves, "input_bytes": len(fBytes)})
 		}
-		if c.Violations() == before {
+		if c.Violations() == before || kept >= 6 {
 			_ = os.RemoveAll(caseDir)
+		} else {
+			kept++ // the run directory named in the witness is kept for the first few violating cases only
 		}
 	}
 	missing := []string{}
